@@ -505,6 +505,10 @@ def seq_method(self, box, v, name, args):
     return out
   if name == 'copy':
     return self.new_box(SV(s, v.t))
+  if name == 'remove':
+    # removes the FIRST occurrence
+    i = seq_method(self, None, v, 'index', args)
+    return seq_method(self, box, v, 'pop', [i]) and NONEV
   if name == 'index':
     x = self.coerce(args[0], s.elem)
     i = z3.Int(fresh_name('idx'))
